@@ -12,6 +12,8 @@ Correspondence (every run): for every generated ITS graph
   extract_k(its, -1), context_extraction, paralle_context_extraction  == model distance balls (see `aux_cases`)
   find_unequal_order_edges(its)  == atoms of the changed bonds of the model centre (well-formed ITS)
   rsmi_to_its(rsmi, core=True, options)  == model centre of the ITS of that reaction (see `entry_cases`)
+  the same on ITS graphs with extra unselected attributes (`weight`, `label`, ...), with ==-equal numbers written in mixed
+  ways, on larger structured shapes; find_nearest_neighbors(its, centre, k) / re-queried extract_k == model balls (`direct_cases`)
 On a divergence the specification itself is evaluated on the implementation's output
 (`spec.its.rc` in Lean; distance balls by NetworkX shortest paths) to decide between a VIOLATION with
 that input and a broken correspondence.
@@ -126,6 +128,7 @@ def its_cases(ctx, cases, tag, derive=True):
     """cases: list of (its: nx.Graph, meta)."""
     reqs, keep = [], []
     derived = []
+    raised = 0
     for its, meta in cases:
         I0 = enc(its)
         try:
@@ -133,7 +136,10 @@ def its_cases(ctx, cases, tag, derive=True):
             Ks = [impl_k(its, k) for k in range(KMAX + 1)]
             rc2 = impl_rc(rc)
         except Exception as e:
-            ctx.violation("get_rc / extract_k raises on an ITS graph", {"stream": tag, "its": I0, "meta": meta}, {"error": repr(e)[:300]})
+            raised += 1
+            ctx.count(f"{tag}:impl-raises:{type(e).__name__}")
+            if raised <= 2:                                     # report the first two, keep going so that a wrong answer can surface too
+                ctx.violation("get_rc / extract_k raises on an ITS graph", {"stream": tag, "its": I0, "meta": meta}, {"error": repr(e)[:300]})
             continue
         if derive and ctx.rnd.random() < 0.3:
             for J, how in derived_graphs(ctx, its):
@@ -205,8 +211,8 @@ def labels_ok(its, K):
 
 
 def shrink_its(ctx, case, what):
-    its = graphio.to_nx(case["its"])
-    if len(its) > 12:
+    its = materialize(graphio.to_nx(case["its"]), case.get("meta"))
+    if len(its) > 14:
         return case
 
     def bad(I):
@@ -488,8 +494,8 @@ def aux_cases(ctx, cases, tag, all_params=False):
 
 
 def shrink_aux(ctx, case, bad):
-    its = graphio.to_nx(case["its"])
-    if len(its) > 12:
+    its = materialize(graphio.to_nx(case["its"]), case.get("meta"))
+    if len(its) > 14:
         return case
 
     def isbad(J):
@@ -745,6 +751,383 @@ def corpus_stream(ctx, per_variant):
     return cases, isos
 
 
+# ------------------------------------------------------------------ representation / decoration / scale streams
+#   (a) DECORATED: ITS graphs whose bonds / atoms carry extra attributes that neither get_rc nor the context code selects
+#       (`weight`, `label`, `id`, `name`, `capacity`, `length`, ...: names a library default may silently pick up; numeric values
+#       != 1 incl. 0 / < 1 / >= 10, strings, None, empty tuples; uniform / per-bond / only on part of the bonds / centre vs rest).
+#       "Within k bonds" counts bonds: none of these annotations may move an atom into or out of a context.
+#   (b) REPRESENTATION: the same ITS with numbers that are EQUAL under `==` written differently WITHIN one graph (1 / 1.0 /
+#       numpy.float64(1.0) / numpy.int64(1) in order pairs, standard_order, charge, hcount, atom_map, typesGH; order pair as
+#       tuple or list; some node ids numpy.int64).  graphio maps all of them onto one `Val.num`, so the model answer is that
+#       of the plain ITS.  Replay re-applies the representation from `meta["repr_seed"]` (per-item keyed, so it survives
+#       shrinking).
+#   (c) SCALE / SHAPE: chains, rings, stars, trees, caterpillars, two components and dense graphs on 4..14 atoms (beyond the
+#       exhaustive n <= 3/4 and the random n <= 9), centre at a random place, ids incl. 0 and ids >= 1000.
+#   (d) DIRECT: RadiusExpand.find_nearest_neighbors(its, centre atoms as a list in several orders / with repeats, k) and
+#       extract_k re-queried on the same object with the radii in a shuffled order == model distance ball (its.rc /
+#       its.extractK node sets).
+EDGE_EXTRA = ["weight", "weight", "weight", "weight", "label", "id", "name", "capacity", "length", "distance", "cost", "flow", "color", "key"]
+NODE_EXTRA = ["weight", "label", "id", "name", "capacity", "demand", "bipartite", "color", "pos", "value"]
+EXTRA_NUMS = [0, 0.0, 0.5, 0.5, 1, 1.0, 1.5, 2, 2.0, 2.5, 3, 3.5, 5, 10, 12.5, 50, 100.0, 2500, -1, -0.5]
+EXTRA_OTHER = ["", "a", "1", "weight", None, (), (1, 2), True, False]
+
+
+def extra_value(rnd):
+    return rnd.choice(EXTRA_NUMS) if rnd.random() < 0.8 else rnd.choice(EXTRA_OTHER)
+
+
+def decorate(its, rnd):
+    """-> (copy of `its` with extra, unselected attributes, meta)."""
+    J = its.copy()
+    names = sorted(set(rnd.choice(EDGE_EXTRA) for _ in range(rnd.choice([1, 1, 2, 3]))))
+    how = {}
+    for name in names:
+        mode = rnd.choice(["uniform", "per-bond", "partial", "by-centre"])
+        how[name] = mode
+        a, b = extra_value(rnd), extra_value(rnd)
+        for u, v, d in J.edges(data=True):
+            if mode == "uniform":
+                d[name] = a
+            elif mode == "per-bond":
+                d[name] = extra_value(rnd)
+            elif mode == "partial":
+                if rnd.random() < 0.5:
+                    d[name] = extra_value(rnd)
+            else:
+                s = d.get("standard_order")
+                d[name] = a if isinstance(s, (int, float)) and s != 0 else b
+    nnames = []
+    if rnd.random() < 0.4:
+        nnames = sorted(set(rnd.choice(NODE_EXTRA) for _ in range(rnd.choice([1, 2]))))
+        for name in nnames:
+            a = extra_value(rnd)
+            uniform = rnd.random() < 0.4
+            for n, d in J.nodes(data=True):
+                if uniform:
+                    d[name] = a
+                elif rnd.random() < 0.7:
+                    d[name] = extra_value(rnd)
+    return J, {"edge_extra": how, "node_extra": nnames}
+
+
+def _pick(seed, key, xs):
+    import random as _r
+    return _r.Random(f"{seed}|{key}").choice(xs)
+
+
+def _chance(seed, key):
+    import random as _r
+    return _r.Random(f"{seed}|{key}").random()
+
+
+def _is_num(x):
+    import numpy as np
+    return isinstance(x, (int, float, np.integer, np.floating)) and not isinstance(x, (bool, np.bool_))
+
+
+def num_form(x, seed, key, npint=True):
+    """One of the `==`-equal ways of writing the number x, chosen from (seed, key) only."""
+    import numpy as np
+    f = float(x)
+    forms = [f, np.float64(f)]
+    if f.is_integer():
+        forms.append(int(f))
+        if npint:
+            forms.append(np.int64(int(f)))
+    return _pick(seed, key, forms)
+
+
+def deep_form(x, seed, key):
+    """typesGH-like nested value: numbers re-written, tuple/list containers kept (inner lists are what the library stores)."""
+    if _is_num(x):
+        return num_form(x, seed, key)
+    if isinstance(x, tuple):
+        return tuple(deep_form(y, seed, f"{key}.{i}") for i, y in enumerate(x))
+    if isinstance(x, list):
+        return [deep_form(y, seed, f"{key}.{i}") for i, y in enumerate(x)]
+    return x
+
+
+def rerepresent(its, seed):
+    """The same ITS (equal under `==`, encoded to the same Lean value), numbers written in mixed ways.  Every choice depends
+    on (seed, atom / bond ids, attribute) only.  standard_order may be numpy.int64 too (get_rc rejected it until the repair F43, /repo b403775)."""
+    import numpy as np
+    npids = _chance(seed, "npids") < 0.35
+    J = nx.Graph()
+
+    def nid(n):
+        n = int(n)
+        return np.int64(n) if npids and _chance(seed, f"nid|{n}") < 0.5 else n
+
+    for n, d in its.nodes(data=True):
+        k = int(n)
+        e = {}
+        for a, x in d.items():
+            if a in ("charge", "hcount", "atom_map") and _is_num(x):
+                e[a] = num_form(x, seed, f"n|{k}|{a}")
+            elif a == "typesGH" and isinstance(x, (tuple, list)):
+                y = deep_form(x, seed, f"n|{k}|tg")
+                e[a] = list(y) if _chance(seed, f"n|{k}|tgc") < 0.2 else tuple(y)
+            else:
+                e[a] = x
+        J.add_node(nid(n), **e)
+    for u, v, d in its.edges(data=True):
+        a, b = sorted((int(u), int(v)))
+        e = {}
+        for t, x in d.items():
+            if t == "order" and isinstance(x, (tuple, list)) and len(x) == 2 and all(_is_num(y) for y in x):
+                y = [num_form(x[0], seed, f"e|{a}|{b}|o0"), num_form(x[1], seed, f"e|{a}|{b}|o1")]
+                e[t] = y if _chance(seed, f"e|{a}|{b}|oc") < 0.2 else tuple(y)
+            elif t == "standard_order" and _is_num(x):
+                e[t] = num_form(x, seed, f"e|{a}|{b}|s")   # numpy.int64 too since the repair F43 (b403775)
+            else:
+                e[t] = x
+        J.add_edge(nid(u), nid(v), **e)
+    return J
+
+
+ORDER_NAMES = {0: "NONE", 1: "SINGLE", 1.5: "AROMATIC", 2: "DOUBLE", 3: "TRIPLE"}
+
+
+def order_as_strings(its):
+    """Bond orders given by name (standard_order stays the number the construction stored)."""
+    J = its.copy()
+    for _, _, d in J.edges(data=True):
+        o = d.get("order")
+        if isinstance(o, tuple) and len(o) == 2 and all(_is_num(x) and x in ORDER_NAMES for x in o):
+            d["order"] = (ORDER_NAMES[o[0]], ORDER_NAMES[o[1]])
+    return J
+
+
+def materialize(its, meta):
+    """The graph a stored case stands for: the representation of stream (b) is re-applied from its seed."""
+    if isinstance(meta, dict) and meta.get("repr_seed") is not None:
+        return rerepresent(its, meta["repr_seed"])
+    return its
+
+
+def structured_its(rnd):
+    """Shapes in which the radii 1, 2, 3 give different contexts, on more atoms than the exhaustive / random streams."""
+    shape = rnd.choice(["chain", "chain", "ring", "star", "tree", "caterpillar", "two-parts", "dense"])
+    n = rnd.randint(4, 5) if shape == "dense" else rnd.randint(5, 14)
+    ids = list(range(1, n + 1))
+    lab = {i: (rnd.choice(["C", "C", "C", "N", "O", "S"]), False, rnd.choice([0, 0, 1, 2]), rnd.choice([0, 0, 0, 1, -1])) for i in ids}
+    bonds = {}
+    if shape in ("chain", "ring", "two-parts"):
+        for i in range(1, n):
+            bonds[(i, i + 1)] = 1.0
+        if shape == "ring":
+            bonds[(1, n)] = 1.0
+        if shape == "two-parts":
+            del bonds[(n // 2, n // 2 + 1)]
+    elif shape == "star":
+        for i in range(2, n + 1):
+            bonds[(1, i)] = 1.0
+    elif shape == "tree":
+        for i in range(2, n + 1):
+            bonds[(rnd.randint(1, i - 1), i)] = rnd.choice([1.0, 1.0, 2.0])
+    elif shape == "caterpillar":
+        spine = max(3, n // 2)
+        for i in range(1, spine):
+            bonds[(i, i + 1)] = 1.0
+        for i in range(spine + 1, n + 1):
+            bonds[(rnd.randint(1, spine), i)] = 1.0
+    else:
+        for pr in itertools.combinations(ids, 2):
+            if rnd.random() < 0.6:
+                bonds[pr] = rnd.choice([1.0, 1.0, 2.0])
+    for i in ids:                                             # hydrogen leaves
+        deg = sum(1 for pr in bonds if i in pr)
+        if deg == 1 and rnd.random() < 0.25:
+            lab[i] = ("H", False, 0, 0)
+    bonds2 = dict(bonds)
+    edits = []
+    for _ in range(rnd.choice([1, 1, 1, 2, 3])):
+        c = rnd.random()
+        if c < 0.45 and bonds2:
+            k = rnd.choice(sorted(bonds2))
+            del bonds2[k]
+            edits.append("break")
+        elif c < 0.75 and bonds2:
+            k = rnd.choice(sorted(bonds2))
+            bonds2[k] = rnd.choice([o for o in (1.0, 2.0, 3.0) if o != bonds2[k]])
+            edits.append("order")
+        else:
+            a, b = sorted(rnd.sample(ids, 2))
+            if (a, b) not in bonds2:
+                bonds2[(a, b)] = 1.0
+                edits.append("form")
+    order = ids[:]
+    if rnd.random() < 0.5:
+        rnd.shuffle(order)
+    its = base.impl_its(base.mk_mol(order, lab, bonds), base.mk_mol(order[::-1] if rnd.random() < 0.3 else order, lab, bonds2))
+    ids_how = rnd.choice(["1..n", "1..n", "with-0", "large", "sparse"])
+    if ids_how != "1..n":
+        ns = list(its.nodes)
+        if ids_how == "with-0":
+            new = rnd.sample(range(0, n), n)
+        elif ids_how == "large":
+            new = rnd.sample(range(1000, 1000 + 3 * n), n)
+        else:
+            new = rnd.sample(range(0, 50 * n), n)
+        its = nx.relabel_nodes(its, dict(zip(ns, new)), copy=True)
+    return its, {"shape": shape, "n": n, "edits": edits, "ids": ids_how}
+
+
+def repr_bases(ctx, n_struct, n_random, n_corpus):
+    out = []
+    for _ in range(n_struct):
+        its, meta = structured_its(ctx.rnd)
+        ctx.count("shape:" + meta["shape"])
+        ctx.count("shape:ids=" + meta["ids"])
+        out.append((its, meta))
+    for _ in range(n_random):
+        G, H, tags = base.random_pair(ctx.rnd, 12)
+        out.append((base.impl_its(G, H), {"edits": tags, "shape": "random-pair(n<=12)"}))
+    recs = load_reactions()
+    for rec in ctx.rnd.sample(recs, min(n_corpus, len(recs))):
+        r, p, why = base.reaction_graphs(rec["rsmi"])
+        if why or len(r) > 60:
+            continue
+        out.append((base.impl_its(r, p), {"src": rec["src"], "idx": rec["idx"], "shape": "corpus"}))
+    return out
+
+
+def repr_stream(ctx, bases, n_decor, n_repr):
+    """-> (plain, decorated, re-represented) case lists for its_cases / aux_cases / direct_cases."""
+    plain = [(its, dict(meta)) for its, meta in bases]
+    decorated, rep = [], []
+    for i in range(n_decor):
+        its, meta = bases[i % len(bases)]
+        J, how = decorate(its, ctx.rnd)
+        for name, mode in how["edge_extra"].items():
+            ctx.count(f"decorated:bond attribute:{name}")
+            ctx.count(f"decorated:mode:{mode}")
+        for name in how["node_extra"]:
+            ctx.count(f"decorated:atom attribute:{name}")
+        decorated.append((J, dict(meta, **how)))
+    for i in range(n_repr):
+        its, meta = bases[(i * 7 + 3) % len(bases)]
+        m = dict(meta)
+        c = ctx.rnd.random()
+        if c < 0.12:
+            its = order_as_strings(its)
+            m["orders"] = "names"
+            ctx.count("representation:bond orders by name")
+        if c > 0.75:
+            its, how = decorate(its, ctx.rnd)
+            m.update(how)
+            ctx.count("representation:also decorated")
+        seed = ctx.rnd.getrandbits(32)
+        m["repr_seed"] = seed
+        J = rerepresent(its, seed)
+        ctx.count("representation:generated")
+        if any(type(n) is not int for n in J.nodes):
+            ctx.count("representation:numpy.int64 atom ids mixed with int")
+        if any(isinstance(d.get("order"), list) for _, _, d in J.edges(data=True)):
+            ctx.count("representation:order pair as list on some bonds")
+        rep.append((J, m))
+    return plain, decorated, rep
+
+
+def impl_neighbours(its, centre, k):
+    from synkit.Graph.Context.radius_expand import RadiusExpand
+    return RadiusExpand.find_nearest_neighbors(its, centre, k)
+
+
+def centre_forms(rnd, centre):
+    """The centre atoms as the List[int] find_nearest_neighbors documents: several orders, with repeats."""
+    xs = list(centre)
+    sh = xs[:]
+    rnd.shuffle(sh)
+    return [("list", xs), ("reversed", xs[::-1]), ("shuffled", sh), ("with-repeats", xs + xs[:2] + sh[:1])]
+
+
+def bfs_ball(its, seeds, k):
+    seen = {n for n in seeds if n in its}
+    frontier = set(seen)
+    for _ in range(k):
+        frontier = {m for n in frontier for m in its[n]} - seen
+        seen |= frontier
+    return seen
+
+
+def direct_cases(ctx, cases, tag, all_params=False):
+    """find_nearest_neighbors on the centre atoms / extract_k re-queried in a shuffled radius order == model balls."""
+    keep, reqs = [], []
+    for its, meta in cases:
+        I0 = enc(its)
+        try:
+            centre = list(impl_rc(its).nodes)
+            forms = centre_forms(ctx.rnd, centre)
+            if not all_params:
+                forms = ctx.rnd.sample(forms, 2)
+            ks = list(range(KMAX + 1))
+            ctx.rnd.shuffle(ks)
+            got = []
+            for name, xs in forms:
+                for k in (ks if all_params else ks[:2]):
+                    arg = list(xs)
+                    got.append((f"find_nearest_neighbors(centre as {name}, {k})", k, set(impl_neighbours(its, arg, k)), arg == list(xs)))
+            for k in ks + ks[:1]:
+                got.append((f"extract_k(its, {k}) re-queried (radius order {ks})", k, set(impl_k(its, k).nodes), True))
+        except Exception as e:
+            ctx.violation("find_nearest_neighbors / extract_k raises on an ITS graph", {"stream": tag, "its": I0, "meta": meta, "direct": "raise"}, {"error": repr(e)[:300]})
+            continue
+        if enc(its) != I0:
+            ctx.violation("find_nearest_neighbors / extract_k mutated the ITS", {"stream": tag, "its": I0, "meta": meta, "direct": "mutated"})
+        keep.append((its, I0, meta, got, len(reqs)))
+        reqs.append({"cmd": "its.rc", "its": I0})
+        for k in range(1, KMAX + 1):
+            reqs.append({"cmd": "its.extractK", "its": I0, "k": k})
+    reps = ctx.lean().ok(reqs, shards=8)
+    for its, I0, meta, got, at in keep:
+        if len(ctx.violations) >= 6:
+            return
+        balls = [{n for n, _ in reps[at + k]["nodes"]} for k in range(KMAX + 1)]
+        ctx.case(["direct", I0], len(balls[0]) >= 2 and len(its) > len(balls[0]))
+        ctx.count(f"{tag}:direct:cases")
+        for what, k, nodes, arg_kept in got:
+            ctx.count(f"{tag}:direct:queries")
+            if not arg_kept:
+                ctx.violation("find_nearest_neighbors changed the list of centre atoms it was given", {"stream": tag, "its": I0, "meta": meta, "direct": what})
+                break
+            if {int(n) for n in nodes} != balls[k]:
+                spec = bfs_ball(its, balls[0], k)
+                ok = {int(n) for n in nodes} == {int(n) for n in spec}
+                ctx.violation(f"{what.split('(')[0]}: the radius-{k} neighbourhood of the centre is not the set of atoms within {k} bonds of it",
+                              {"stream": tag, "its": I0, "meta": meta, "direct": what},
+                              {"impl": sorted(int(n) for n in nodes)[:20], "model": sorted(balls[k])[:20], "bfs_spec_holds": ok}, no_input=ok)
+                break
+
+
+def npint_probe(ctx):
+    """NOT gated, recorded only: standard_order written as numpy.int64 (== 1, but not an instance of int/float, which is what
+    get_rc's guard tests).  The count shows whether the implementation keeps such a changed bond."""
+    import numpy as np
+    for _ in range(10):
+        its, _ = structured_its(ctx.rnd)
+        J = its.copy()
+        hit = False
+        for _, _, d in J.edges(data=True):
+            s = d.get("standard_order")
+            if _is_num(s) and s != 0 and float(s).is_integer():
+                d["standard_order"] = np.int64(int(s))
+                hit = True
+        if not hit:
+            continue
+        try:
+            same = {frozenset(e) for e in impl_rc(J).edges} == {frozenset(e) for e in impl_rc(its).edges}
+        except Exception:
+            same = False
+        if same:
+            ctx.count("standard_order as numpy.int64: centre unchanged")
+        else:
+            ctx.violation("get_rc loses the changed bonds when standard_order is written as numpy.int64 (F43)",
+                          {"its": graphio.graph(its), "note": "every non-zero integral standard_order rewritten as numpy.int64"}, {"stream": "npint-probe"})
+
+
+
 def run(ctx):
     base.quiet()
     ctx.trusted = [
@@ -766,7 +1149,11 @@ def run(ctx):
                        "C01's subject); without hydrogen expansion additionally the chain rsmi_to_graph -> Lean its.construct -> Lean its.rc, so that the "
                        "expected centre does not pass through ITSConstruction or get_rc at all",
                        "get_rc(bond_key=, standard_key=): the ITS carries its bond attributes under those names (harness renames them); expected = model with "
-                       "the same options, and = model centre of the un-renamed ITS"]
+                       "the same options, and = model centre of the un-renamed ITS",
+                       "'within k bonds' counts bonds: attributes that get_rc / the context code do not select (weight, label, id, name, capacity, ... on bonds "
+                       "or atoms) are legal on an ITS and never change a centre or a context; whether they are copied into the result is not gated",
+                       "numbers that are equal under == (1, 1.0, numpy.float64(1.0), numpy.int64(1)) are the same ITS value (one Lean Val.num; bool kept apart); "
+                       "standard_order given as numpy.int64 is gated since the repair F43 (get_rc tested isinstance(std, (int, float)))"]
     ctx.gen_rule = ("regressions first; ITS graphs of the vendored corpus reactions (ecoli, USPTO sample, hydrogen set) and of a dense and a sparse "
                     "atom-map renumbering of each, plus the 50 stored hydrogen-set ITS graphs (quick: 40 reactions + 10 stored); ALL ITS on n<=3 atoms "
                     "(3 element patterns over {C,H}, per-pair order pairs {0,1,2}^2) (thorough: also n=4 with pairs from {00,11,10,01,12}); random "
@@ -778,7 +1165,18 @@ def run(ctx):
                     "key pair per chunk). Entry stream: corpus reactions (quick 36, thorough all) as written, under one of renumber/renumber_sparse/reverse/"
                     "shuffle, and with unchanged explicit-hydrogen spectators (H-H, water, ammonia, HCl) or one H-X bond cut to a free hydrogen; "
                     "rsmi_to_its(core=True) with default options and explicit_hydrogen=True on the identity form plus one option set drawn from "
-                    "{explicit_hydrogen, sanitize=False, drop_non_aam=False, use_index_as_atom_map=False, extra node_attrs} per form (thorough: two).")
+                    "{explicit_hydrogen, sanitize=False, drop_non_aam=False, use_index_as_atom_map=False, extra node_attrs} per form (thorough: two). "
+                    "Representation / decoration / scale streams: base graphs = 60 (thorough 700) structured ITS (chain, ring, star, tree, caterpillar, two "
+                    "components on 5..14 atoms, dense on 4..5 atoms; 1-3 bond edits anywhere; atom ids 1..n / including 0 / >= 1000 / sparse), 30 (400) random "
+                    "molecule-like ITS n<=12, 6 (60) corpus ITS; 'decorated' 220 (4000): a base graph whose bonds carry 1-3 extra unselected attributes drawn from "
+                    "{weight (oversampled), label, id, name, capacity, length, distance, cost, flow, color, key} (uniform / per bond / on part of the bonds / centre "
+                    "vs rest; values 0, 0.5 .. 2500, negative, '', strings, None, (), booleans) and in 40% also atom attributes {weight, label, id, name, ...}; "
+                    "'representation' 140 (2500): a base graph (12% with bond orders given by name, 25% also decorated) with every number of order pairs, "
+                    "standard_order, charge, hcount, atom_map, typesGH written per occurrence as int / float / numpy.float64 / numpy.int64 (standard_order included "
+                    "since the repair F43), order pair / typesGH as list on 20% of the bonds / atoms, 35% of the graphs with about half of "
+                    "the atom ids numpy.int64; 'shapes': the base graphs as built. Each of the three goes through the main comparison (centre, K0..K3, idempotence, "
+                    "derived copies), the auxiliary entry points, and the direct stream: find_nearest_neighbors(its, centre atoms as list / reversed / shuffled / with "
+                    "repeats, k in 0..3) and extract_k re-queried on the same object in a shuffled radius order, node sets == model its.rc / its.extractK.")
     ctx.nontrivial_rule = "distinct encoded ITS with a centre of >=2 atoms and at least one atom outside the centre"
     build_and_audit(ctx, ["SynKitProofs.Props.C02"], "SynKitProofs/Audit/C02.lean", THEOREMS)
 
@@ -840,6 +1238,19 @@ def run(ctx):
             iso_cases(ctx, isos, "random")
         if not ctx.violations:
             options_cases(ctx, opts, "options")
+    if not ctx.violations:
+        q = ctx.quick
+        bases = repr_bases(ctx, 60 if q else 700, 30 if q else 400, 6 if q else 60)
+        plain, decorated, rep = repr_stream(ctx, bases, 220 if q else 4000, 140 if q else 2500)
+        for cs, tag in ((decorated, "decorated"), (rep, "representation"), (plain, "shapes")):
+            if ctx.violations:
+                break
+            its_cases(ctx, cs, tag, derive=tag != "representation")   # a derived (permuted) copy could not be replayed from repr_seed
+            if not ctx.violations:
+                aux_cases(ctx, cs, tag)
+            if not ctx.violations:
+                direct_cases(ctx, cs, tag)
+        npint_probe(ctx)
     ctx.obligation("correspondence: get_rc == model getRc; extract_k(k=0..3) == model extractK; get_rc(get_rc) == get_rc; "
                    "centre of renumbered reaction iso centre (Lean match.iso)", not ctx.violations)
 
@@ -852,10 +1263,12 @@ def _replay_one(ctx, c, tag):
         o = c["options"]
         options_cases(ctx, [(rename_edge_keys_back(its, o.get("bond_key", "order"), o.get("standard_key", "standard_order")), o)], tag)
     elif "its" in c and "relabelled" not in c:
-        its = graphio.to_nx(c["its"])
+        its = materialize(graphio.to_nx(c["its"]), c.get("meta"))
         its_cases(ctx, [(its, c.get("meta"))], tag)
         if not ctx.violations:
             aux_cases(ctx, [(its, c.get("meta"))], tag, all_params=True)
+        if not ctx.violations:
+            direct_cases(ctx, [(its, c.get("meta"))], tag, all_params=True)
     elif "relabelled" in c and "its" in c:
         a, b = graphio.to_nx(c["its"]), graphio.to_nx(c["relabelled"])
         iso_cases(ctx, [(impl_rc(a), impl_rc(b), c)], tag)
